@@ -342,3 +342,125 @@ pub fn replay_file(path: &str, seed: u64) -> J {
     }
     json!({"behaviours": n, "distinct_nontrivial": nontrivial, "mismatches": mismatches, "samples": samples})
 }
+
+/// Replay MC_Lexer behaviours: the specification's tokens for every enumerated string against the crate's lexer.
+pub fn replay_lex_file(path: &str) -> J {
+    let text = std::fs::read_to_string(path).expect("read behaviours");
+    let mut n = 0usize;
+    let mut nontrivial = 0usize;
+    let mut mismatches = vec![];
+    let mut samples = vec![];
+    for (i, line) in text.lines().enumerate() {
+        if line.trim().is_empty() {
+            continue;
+        }
+        let b: J = serde_json::from_str(line).expect("behaviour JSON");
+        n += 1;
+        let s: String = b["cs"].as_array().map(|a| a.iter().map(|c| char::from_u32(c.as_u64().unwrap() as u32).unwrap()).collect()).unwrap_or_default();
+        *crate::WATCH_TEXT.lock().unwrap() = s.clone();
+        let want: Vec<(String, usize, usize)> = b["toks"].as_array().map(|a| a.iter().map(|t| (t[0].as_str().unwrap().to_string(), t[1].as_u64().unwrap() as usize, t[2].as_u64().unwrap() as usize)).collect()).unwrap_or_default();
+        if want.len() >= 3 {
+            nontrivial += 1;
+            if samples.len() < 2 && want.len() >= 4 {
+                samples.push(json!({"text": s, "tokens": want}));
+            }
+        }
+        match guarded(|| digital_test_runner::verif::tokens(&s, false)) {
+            Err(p) => mismatches.push(json!({"behaviour": i + 1, "code": "panic", "step": 0, "text": s, "expected": json!(want), "observed": p, "line": line})),
+            Ok(got) => {
+                let got = got.unwrap_or_default();
+                if got != want {
+                    mismatches.push(json!({"behaviour": i + 1, "code": "lex.tokens", "step": 0, "text": s, "expected": json!(want), "observed": json!(got), "line": line}));
+                }
+            }
+        }
+    }
+    json!({"behaviours": n, "distinct_nontrivial": nontrivial, "mismatches": mismatches, "samples": samples})
+}
+
+fn render_tokens(h: &J, t: &J) -> String {
+    let mut s = String::new();
+    for part in [h, t] {
+        for tok in part.as_array().map(|a| a.iter()).into_iter().flatten() {
+            let src = tok.as_str().unwrap_or("");
+            if src == "\n" {
+                s.push('\n');
+            } else {
+                s.push_str(src);
+                s.push(' ');
+            }
+        }
+    }
+    s
+}
+
+fn dump_row_lines(stmts: &J, out: &mut Vec<u64>) {
+    for s in stmts.as_array().map(|a| a.iter()).into_iter().flatten() {
+        match s["k"].as_str().unwrap_or("") {
+            "row" => out.push(s["line"].as_u64().unwrap_or(0)),
+            "loop" | "while" => dump_row_lines(&s["body"], out),
+            _ => {}
+        }
+    }
+}
+
+/// Replay MC_Parser behaviours: token strings rendered to text, parsed by the real crate, verdict and row lines compared.
+pub fn replay_parse_file(path: &str) -> J {
+    use std::str::FromStr;
+    let text = std::fs::read_to_string(path).expect("read behaviours");
+    let mut n = 0usize;
+    let mut nontrivial = 0usize;
+    let mut mismatches = vec![];
+    let mut samples = vec![];
+    for (i, line) in text.lines().enumerate() {
+        if line.trim().is_empty() {
+            continue;
+        }
+        let b: J = serde_json::from_str(line).expect("behaviour JSON");
+        n += 1;
+        let src = render_tokens(&b["h"], &b["t"]);
+        *crate::WATCH_TEXT.lock().unwrap() = src.clone();
+        let want_ok = b["ok"].as_bool().unwrap();
+        let valid = b["valid"].as_bool().unwrap();
+        if b["t"].as_array().map(|a| a.len()).unwrap_or(0) >= 3 {
+            nontrivial += 1;
+            if samples.len() < 2 && want_ok {
+                samples.push(json!({"text": src, "accepted": want_ok}));
+            }
+        }
+        let mut mm = |code: &str, exp: J, obs: J| {
+            if mismatches.len() < 300 {
+                mismatches.push(json!({"behaviour": i + 1, "code": code, "step": 0, "text": src, "expected": exp, "observed": obs, "line": line}));
+            }
+        };
+        match guarded(|| digital_test_runner::ParsedTestCase::from_str(&src)) {
+            Err(p) => mm("panic", json!(want_ok), json!(p)),
+            Ok(Ok(p)) => {
+                if !valid {
+                    mm("accept.invalid", json!("rejected by the grammar"), json!("accepted"));
+                } else if !want_ok {
+                    mm("verdict", json!(want_ok), json!(true));
+                } else {
+                    let d: J = serde_json::from_str(&p.verif_dump()).expect("dump");
+                    let mut got = vec![];
+                    dump_row_lines(&d["stmts"], &mut got);
+                    let want: Vec<u64> = b["lines"].as_array().map(|a| a.iter().map(|x| x.as_u64().unwrap()).collect()).unwrap_or_default();
+                    if got != want {
+                        mm("ast.lines", json!(want), json!(got));
+                    }
+                }
+            }
+            Ok(Err(e)) => {
+                let spans_ok = e.at.iter().all(|sp| sp.start <= sp.end && sp.end <= src.len() && src.is_char_boundary(sp.start) && src.is_char_boundary(sp.end));
+                if !spans_ok {
+                    mm("spans", json!("in range"), json!(format!("{:?}", e.at)));
+                } else if valid {
+                    mm("reject.valid", json!("accepted by the grammar"), json!(format!("{e:?}")));
+                } else if want_ok {
+                    mm("verdict", json!(want_ok), json!(false));
+                }
+            }
+        }
+    }
+    json!({"behaviours": n, "distinct_nontrivial": nontrivial, "mismatches": mismatches, "samples": samples})
+}
